@@ -4,6 +4,7 @@ import tables as T
 from cfg import cfg_of
 from flow import Taint, Tracker, callee_matches, field_reads, op_local, prep, backward
 from rules import CallGuard, CallSink, CmpGuard, RetSink, AggSink, BlockSink, FieldOptGuard, compare_sites
+from rules import PL
 from props.C04 import call_results
 from props.C10 import len_of, reads
 
@@ -137,7 +138,7 @@ def run(R):
 
                 def edges(self, body):
                     tr = Tracker(body)
-                    for l in Taint(body).closure(Taint(body).var_locals("ignore_peer_id")):
+                    for l in Taint(body).closure(PL(body, 1)):  # (addr, ignore_peer_id)
                         tr.seed_bool(l, True)
                     tr.run()
                     return 1, tr.accept, tr.reject
